@@ -24,3 +24,4 @@ def run(ck):
     tables.r15_pixbuf_substitution(ck, P)
     codec.r12_simd_helpers(ck, P, 'C02-R16')
     sampling.r13_weight_vector_tracks_position(ck, P, 'C02-R17')
+    sampling.r12_wrap_is_a_loop(ck, P, 'C02-R18')     # the MMX, SSE2 and C nearest scanlines wrap the coordinate the same way (a loop)
